@@ -285,6 +285,26 @@ def derived_oracle(R, pc, n):
                 a, b = np.asarray(got[key], dtype=float).flatten(), np.asarray(ref[key], dtype=float).flatten()
                 if a.shape != b.shape or np.abs(a - b).max() > 1e-9:
                     bad = bad or {'check': 'derived-parameters', 'parameter': key, 'MTs': MTs.tolist(), 'container': a.tolist(), 'stand_alone': b.tolist()}
+            # what the container reports for a parameter does not depend on which parameters were requested before it, and a
+            # parameter read twice is the same both times (also on a slice taken afterwards)
+            attrs = ['gamma', 'delta', 'kappa', 'h', 'sigma', 'u', 'v', 'strike', 'dip', 'rake', 'strike1', 'dip1', 'rake1',
+                     'strike2', 'dip2', 'rake2', 'T', 'N', 'P', 'E', 'N1', 'N2']
+            prob = np.array([R.rng.uniform(0.1, 1) for _ in range(m)])
+            order = list(attrs)
+            R.rng.shuffle(order)
+            seq = pc.MTData(MTs.copy(), prob.copy())
+            first = {}
+            for key in order:
+                first[key] = np.array(getattr(seq, key), dtype=float, copy=True)
+            for key in order:
+                alone = np.asarray(getattr(pc.MTData(MTs.copy(), prob.copy()), key), dtype=float)
+                again = np.asarray(getattr(seq, key), dtype=float)
+                cut = np.asarray(getattr(seq[:, list(range(m))], key), dtype=float)
+                for label, other in (('requested alone on a fresh container', alone), ('read again after the other parameters', again),
+                                     ('read from a slice taken afterwards', cut)):
+                    if other.shape != first[key].shape or not np.allclose(other, first[key], rtol=0, atol=1e-9, equal_nan=True):
+                        bad = bad or {'check': 'derived-parameters-history', 'parameter': key, 'request_order': order, 'MTs': MTs.tolist(),
+                                      'first_read': first[key].tolist(), 'compared_with': label, 'other': other.tolist()}
             # alignment of derived parameters under indexing
             j = R.rng.randrange(m)
             sub = d[:, [j, (j + 1) % m]]
@@ -345,6 +365,18 @@ def replay(R, body):
             got = cols_of(d.get_max_probability())
             print('get_max_probability ->', got, 'expected', rp['expected'])
             return 0 if got == rp['expected'] else 1
+    if rp.get('check') == 'derived-parameters-history':
+        MTs = np.array(rp['MTs'], dtype=float)
+        m = MTs.shape[1]
+        seq = pc.MTData(MTs.copy(), np.ones(m))
+        for key in rp['request_order']:
+            getattr(seq, key)
+        key = rp['parameter']
+        a = np.asarray(getattr(seq, key), dtype=float)
+        b = np.asarray(getattr(pc.MTData(MTs.copy(), np.ones(m)), key), dtype=float)
+        same = a.shape == b.shape and np.allclose(a, b, rtol=0, atol=1e-9, equal_nan=True)
+        print('%s after the recorded request order: %r; requested alone: %r' % (key, a.tolist(), b.tolist()))
+        return 0 if same else 1
     if rp.get('check') == 'projection-law':
         f = sp.equal_area if rp['area'] else sp.equal_angle
         X, Y = f(*rp['vector'], lower=rp['lower'], full_sphere=rp['full_sphere'], back_project=rp['back_project'])
